@@ -38,6 +38,13 @@ CONFIGS = [
     (3, 3, 3, 4, 2, 4),
     (1, 4, 2, 3, 1, 2),
 ]
+# non-convex starting partitions (U, C and ring shapes only arise after several moves): given through initial_blocks
+SHAPED = [
+    (3, 3, 1, 4, 1, 8, [[(0, 0), (1, 0), (2, 0), (2, 1), (2, 2), (1, 2), (0, 2)], [(0, 1), (1, 1)]]),
+    (3, 3, 1, 4, 1, 8, [[(0, 0), (0, 1), (0, 2), (1, 2), (2, 2), (2, 1), (2, 0), (1, 0)], [(1, 1)]]),
+    (2, 4, 1, 4, 1, 7, [[(0, 0), (1, 0), (1, 1), (1, 2), (1, 3), (0, 3)], [(0, 1), (0, 2)]]),
+    (3, 4, 1, 5, 1, 10, [[(0, 0), (0, 1), (0, 2), (0, 3), (1, 3), (2, 3), (2, 2), (2, 1), (2, 0)], [(1, 0), (1, 1), (1, 2)]]),
+]
 SCRIPTS = [[0, 1, 2, 3, 4, 5, 6, 7], [3, 1, 4, 1, 5, 9, 2, 6], [7, 0, 5, 2, 8, 1, 6, 3]]
 
 
@@ -79,6 +86,10 @@ def validity(value: Any, cfg: Tuple) -> Optional[str]:
 
 def _job(args) -> Tuple[str, Optional[str], int]:
     root, overrides, cfg, script = args
+    init_blocks = None
+    if len(cfg) == 7:
+        init_blocks = cfg[6]
+        cfg = cfg[:6]
     repo = Repo(root, overrides)
     cw = ClassWorld([repo.mod(BUILDER), repo.mod(SEG)])
     cw.ev.max_steps = 3_000_000
@@ -98,7 +109,8 @@ def _job(args) -> Tuple[str, Optional[str], int]:
     h, w, mnb, mxb, mns, mxs = cfg
     n = 0
     try:
-        b = cw.new("SegmentationBuilder2D", h, w, min_num_blocks=mnb, max_num_blocks=mxb, min_block_size=mns, max_block_size=mxs)
+        b = cw.new("SegmentationBuilder2D", h, w, min_num_blocks=mnb, max_num_blocks=mxb, min_block_size=mns, max_block_size=mxs,
+                   initial_blocks=copy.deepcopy(init_blocks))
         cw.ev.steps = 0
         init = cw.method(b, "initial")()
         msg = validity(init, cfg)
@@ -106,9 +118,9 @@ def _job(args) -> Tuple[str, Optional[str], int]:
             return "bad", f"config {cfg}: initial() returns {init}: {msg}", n
         seen: Set[Any] = set()
         frontier = [init]
-        budget = 60
+        budget = 60 if init_blocks is None else 12
         depth = 0
-        while frontier and budget > 0 and depth < 3:
+        while frontier and budget > 0 and depth < (3 if init_blocks is None else 2):
             nxt_frontier = []
             for cur in frontier:
                 key = frozenset(frozenset(map(tuple, blk)) for blk in cur)
@@ -149,7 +161,7 @@ def _job(args) -> Tuple[str, Optional[str], int]:
 def evaluation(repo: Repo, rep: Report) -> None:
     rep.rule("SEG-E", "every value reachable from initial() through proposed updates is a partition into connected blocks within all bounds; updates never mutate their input")
     rep.saw(SEG)
-    jobs = [(repo.root, repo.overrides, cfg, sc) for cfg in CONFIGS for sc in SCRIPTS]
+    jobs = [(repo.root, repo.overrides, cfg, sc) for cfg in CONFIGS for sc in SCRIPTS] + [(repo.root, repo.overrides, cfg, sc) for cfg in SHAPED for sc in SCRIPTS]
     with ProcessPoolExecutor(max_workers=16) as ex:
         results = list(ex.map(_job, jobs))
     bad = [r for r in results if r[0] == "bad"]
